@@ -419,8 +419,15 @@ fn safe_case() -> BoxedStrategy<Vec<Ent>> {
                 }
                 out.push(Ent { name, dir, symlink_typed: sym, mode, content, method: if sym { 0 } else { method }, attr_low, dos_made });
             }
-            // explicit directory entries whose permissions would block children must come after
-            // their children? extraction applies the mode at once, so keep dirs >= 0o700 (done)
+            // every third case: the parent directory of a file gets its explicit entry (with permission bits of
+            // its own) only AFTER that file - bottom-up listings as `find -depth | zip -@` produces
+            let pick = out.iter().find(|e| !e.dir && e.name.contains('/')).map(|e| e.name.rsplit_once('/').unwrap().0.to_string());
+            if let Some(parent) = pick {
+                let h = crate::util::hash_of(&(parent.as_str(), out.len()));
+                if h % 3 == 0 && !explicit.contains(&parent) && !files.contains(&parent) {
+                    out.push(Ent { name: parent, dir: true, symlink_typed: false, mode: 0o700 | (h >> 8) as u32 & 0o077, content: Content::Bytes(vec![]), method: 0, attr_low: 0, dos_made: false });
+                }
+            }
             out
         })
         .boxed()
